@@ -32,7 +32,8 @@ def gen_statements(ctx, lattice):
 
 
 def gen_spellings(ctx, comments):
-    cf, r, n = _run(ctx, "Gen_spell", "spell", {"WithComments": "TRUE" if comments else "FALSE",
+    subs = '{"fields", "group", "fill", "order"}' if ctx.quick else '{"fields", "into", "from", "where", "group", "fill", "order", "limit", "tz"}'
+    cf, r, n = _run(ctx, "Gen_spell", "spell", {"WithComments": "TRUE" if comments else "FALSE", "AllOptionSubs": subs,
                                                 "KindsUsed": "{%s}" % ", ".join(ALL_KINDS + ['"selectq"'])})
     ctx.note("grammar: %d single-deviation spellings (keyword case, identifier quoting, gap variants%s)" % (
         n, " incl. comments" if comments else ""))
